@@ -42,7 +42,8 @@ CHECKS = {
         "rendered HTML and the metadata are compared with the model, foreign or `zn` (ordinary comment) words are violations; bodies "
         "also go straight through MetaMarkdown.convert; an icontract post-condition on AdmonitionPreprocessor.run checks word "
         "conservation and order. Site-level family: complete runs (all entities displayed / default display, proc_internals on); every word of every "
-        "comment must be found, in order, on some generated page (internal procedures and their contents excepted).",
+        "comment must be found, in order, on some generated page (internal procedures and their contents excepted). Extra-file-type family: `//` comments of a `.c` file "
+        "(inline, own-line, block with plain continuation lines) make up the file's documentation in order.",
         "Trusts the model->expected mapping (docs attach to the statement they follow / precede); HTML structure is not compared.",
         "runtime monitoring: reference-model oracle over doc_list/doc/meta with tracer words + icontract on AdmonitionPreprocessor.run",
         "3/C03",
